@@ -383,6 +383,55 @@ fn junction_probes(model: &mut model::Model, rep: &mut Report) {
     }
 }
 
+/// self-referencing table with random actions: chains, trees, cycles (PID updates), rows referencing
+/// themselves; DELETE of one row / a range / everything; orphan oracle + the model's repaired recursion
+fn run_selfref(r: &mut Rng, k: u64, model: &mut model::Model, rep: &mut Report) {
+    let a = r.below(3) as usize;
+    let mut db = Db::new();
+    db.must("CREATE TABLE T (ID INT PRIMARY KEY, PID INT)");
+    if r.chance(1, 2) {
+        db.must(&format!("ALTER TABLE T ADD CONSTRAINT FKS FOREIGN KEY (PID) REFERENCES T (ID) ON DELETE {}", ACTIONS[a].0));
+    } else {
+        // the same declared at column level inside CREATE TABLE (self-reference resolves against the new table)
+        db = Db::new();
+        db.must(&format!("CREATE TABLE T (ID INT PRIMARY KEY, PID INT REFERENCES T (ID) ON DELETE {})", ACTIONS[a].0));
+    }
+    rep.count(&format!("selfref_on_delete_{}", ACTIONS[a].1));
+    let (mut accepted, mut rejected) = (0, 0);
+    for _ in 0..(8 + r.below(8)) {
+        let sql = match r.below(10) {
+            0..=3 => format!("INSERT INTO T VALUES ({}, {})", r.range(1, 7), if r.chance(1, 3) { "NULL".to_string() } else { r.range(1, 7).to_string() }),
+            4..=6 => format!("UPDATE T SET PID = {} WHERE ID = {}", if r.chance(1, 5) { "NULL".to_string() } else { r.range(1, 7).to_string() }, r.range(1, 7)),
+            7..=8 => format!("DELETE FROM T WHERE ID = {}", r.range(1, 7)),
+            _ => format!("DELETE FROM T WHERE ID >= {}", r.range(1, 7)),
+        };
+        let before = db.scan("T").unwrap_or_default();
+        let out = db.exec(&sql);
+        let after = db.scan("T").unwrap_or_default();
+        rep.count(&format!("selfref_stmt_{}", sql.split_whitespace().next().unwrap().to_lowercase()));
+        if out.is_ok() { accepted += 1 } else { rejected += 1 }
+        let bad = self_orphans(&db);
+        if out.is_panic() || !bad.is_empty() {
+            rep.fail(FailKind::Oracle, None, "orphan row on a self-referencing table", &format!("{}\n=> {}\norphans {:?}", db.log.join(";\n"), out.brief(), bad));
+            break;
+        }
+        if sql.starts_with("DELETE") {
+            let w: Vec<&str> = sql.split_whitespace().collect();
+            let n: i64 = w[6].parse().unwrap();
+            let ids: Vec<String> = before.iter().filter_map(|x| if let SqlValue::Integer(i) = x[0] { Some(i) } else { None })
+                .filter(|i| if w[5] == "=" { *i == n } else { *i >= n }).map(|i| format!("I{}", i)).collect();
+            let reply = model.ask(&format!("casc (fks (0 0 (1) (0) {})) (tables {}) 0 (sel {})", ACTIONS[a].1, canon::rows_seq(&before), ids.join(" ")));
+            let code = if out.is_ok() { format!("(ok {})", canon::rows_seq(&after)) } else { "(reject)".to_string() };
+            if reply != code {
+                rep.fail(FailKind::ModelDiff, None, "model and code disagree on a DELETE on a self-referencing table", &format!("{}\ncode {} model {}", db.log.join(";\n"), code, reply));
+                break;
+            }
+            rep.traces_validated += 1;
+        }
+    }
+    rep.case(&format!("selfref{} {}", k, db.log.join(";")), accepted > 0 && rejected > 0);
+}
+
 fn self_ref_db() -> Db {
     let mut db = Db::new();
     db.must("CREATE TABLE T (ID INT PRIMARY KEY, PID INT)");
@@ -405,22 +454,36 @@ fn probes(model: &mut model::Model, rep: &mut Report) {
     if !self_orphans(&db).is_empty() || db.scan("T").unwrap_or_default().len() != 1 {
         rep.fail(FailKind::Oracle, None, "self-referencing cascade (referrers stored after the parent) left orphans or survivors", &format!("{}\nrows {}", db.log.join(";\n"), canon::rows_seq(&db.scan("T").unwrap_or_default())));
     }
-    // referrer stored BEFORE the deleted row: positions collected before the cascade are stale
-    let mut db = self_ref_db();
-    for q in ["INSERT INTO T VALUES (2, NULL)", "INSERT INTO T VALUES (1, NULL)", "INSERT INTO T VALUES (3, NULL)", "INSERT INTO T VALUES (4, 3)", "UPDATE T SET PID = 1 WHERE ID = 2"] {
-        db.must(q);
-    }
-    let before = db.scan("T").unwrap_or_default();
-    let out = db.exec("DELETE FROM T WHERE ID = 1");
-    let after = db.scan("T").unwrap_or_default();
-    rep.case("selfref stale positions", true);
-    let reply = model.ask(&format!("selfdel (1) (0) {} 1", rows_sx("rows", &before)));
-    if reply != format!("(ok {})", canon::rows_seq(&after)) {
-        rep.fail(FailKind::ModelDiff, None, "model (as coded) and code disagree on the self-referencing DELETE", &format!("{}\ncode {} model {}", db.log.join(";\n"), canon::rows_seq(&after), reply));
-    }
-    if !self_orphans(&db).is_empty() {
-        rep.fail(FailKind::Oracle, Some("C12/self-reference-delete-stale-positions"), "orphan row after DELETE on a self-referencing table",
-            &format!("{}\n=> {}\nrows {}\norphans {:?}", db.log.join(";\n"), out.brief(), canon::rows_seq(&after), self_orphans(&db)));
+    // regression (repaired): referrer stored BEFORE the deleted row - the selected row is found again after
+    // the cascade; several self-referencing shapes incl. cycles and a row referencing itself, compared with
+    // the model's repaired recursion (`deleteWithFksV`)
+    for (name, setup, del) in [
+        ("stale positions", vec!["INSERT INTO T VALUES (2, NULL)", "INSERT INTO T VALUES (1, NULL)", "INSERT INTO T VALUES (3, NULL)", "INSERT INTO T VALUES (4, 3)", "UPDATE T SET PID = 1 WHERE ID = 2"], "DELETE FROM T WHERE ID = 1"),
+        ("two-cycle", vec!["INSERT INTO T VALUES (1, NULL)", "INSERT INTO T VALUES (2, 1)", "INSERT INTO T VALUES (3, NULL)", "UPDATE T SET PID = 2 WHERE ID = 1"], "DELETE FROM T WHERE ID = 1"),
+        ("self-loop", vec!["INSERT INTO T VALUES (1, NULL)", "INSERT INTO T VALUES (2, 1)", "INSERT INTO T VALUES (5, NULL)", "UPDATE T SET PID = 1 WHERE ID = 1"], "DELETE FROM T WHERE ID = 1"),
+        ("three-cycle with tail", vec!["INSERT INTO T VALUES (1, NULL)", "INSERT INTO T VALUES (2, 1)", "INSERT INTO T VALUES (3, 2)", "INSERT INTO T VALUES (4, 3)", "INSERT INTO T VALUES (9, NULL)", "UPDATE T SET PID = 3 WHERE ID = 1"], "DELETE FROM T WHERE ID = 2"),
+        ("cycle, delete all", vec!["INSERT INTO T VALUES (1, NULL)", "INSERT INTO T VALUES (2, 1)", "UPDATE T SET PID = 2 WHERE ID = 1", "INSERT INTO T VALUES (3, 2)"], "DELETE FROM T WHERE ID >= 1"),
+    ] {
+        let mut db = self_ref_db();
+        for q in setup {
+            db.must(q);
+        }
+        let before = db.scan("T").unwrap_or_default();
+        let out = db.exec(del);
+        let after = db.scan("T").unwrap_or_default();
+        rep.case(&format!("selfref {}", name), true);
+        rep.count("self_reference_probes");
+        let ids: Vec<String> = before.iter().filter_map(|r| if let SqlValue::Integer(i) = r[0] { Some(i) } else { None })
+            .filter(|i| if del.contains(">=") { *i >= 1 } else { *i == del.split_whitespace().last().unwrap().parse::<i64>().unwrap() })
+            .map(|i| format!("I{}", i)).collect();
+        let reply = model.ask(&format!("casc (fks (0 0 (1) (0) cascade)) (tables {}) 0 (sel {})", canon::rows_seq(&before), ids.join(" ")));
+        if !out.is_ok() || reply != format!("(ok {})", canon::rows_seq(&after)) {
+            rep.fail(FailKind::ModelDiff, None, "model and code disagree on a DELETE on a self-referencing CASCADE table", &format!("{}\n=> {}\ncode {} model {}", db.log.join(";\n"), out.brief(), canon::rows_seq(&after), reply));
+        }
+        if !self_orphans(&db).is_empty() || after.iter().any(|r| ids.contains(&canon::val(&r[0]))) {
+            rep.fail(FailKind::Oracle, None, "DELETE on a self-referencing table left an orphan or kept a selected row",
+                &format!("{}\n=> {}\nrows {}\norphans {:?}", db.log.join(";\n"), out.brief(), canon::rows_seq(&after), self_orphans(&db)));
+        }
     }
     // INSERT INTO child SELECT … FROM a staging table without (or with other) foreign keys
     for (src_ddl, src_name) in [
@@ -468,17 +531,33 @@ fn probes(model: &mut model::Model, rep: &mut Report) {
     db.must("INSERT INTO CH VALUES (1, 1)");
     let out = db.exec("DROP TABLE PAR");
     rep.case("drop referenced parent", true);
-    if out.is_ok() && !fkinv(&db, false).is_empty() {
-        rep.fail(FailKind::Oracle, Some("C12/drop-referenced-parent-table"), "DROP TABLE of a referenced parent accepted: child rows reference a table that no longer exists", &db.log.join(";\n"));
+    let out2 = db.exec("DROP TABLE PAR CASCADE");
+    db.must("DROP TABLE CH");
+    let out3 = db.exec("DROP TABLE PAR");
+    let mut sdb = self_ref_db();
+    let out4 = sdb.exec("DROP TABLE T");
+    if out.is_ok() || out2.is_ok() || !out3.is_ok() || !out4.is_ok() {
+        rep.fail(FailKind::Oracle, None, "DROP TABLE of a referenced parent must be rejected; after the child is gone (or for a table referencing only itself) it must succeed",
+            &format!("{}\n{}\nreferenced: {} / {}; unreferenced: {}; self-referencing: {}", db.log.join(";\n"), sdb.log.join(";\n"), out.brief(), out2.brief(), out3.brief(), out4.brief()));
     }
     // column-level REFERENCES
     let mut db = Db::new();
     db.must("CREATE TABLE PAR (ID INT PRIMARY KEY, V INT)");
     db.must("CREATE TABLE CH (ID INT PRIMARY KEY, PID INT REFERENCES PAR (ID))");
+    db.must("INSERT INTO PAR VALUES (1, 0), (2, 0)");
     let out = db.exec("INSERT INTO CH VALUES (1, 7)");
+    let ok1 = db.exec("INSERT INTO CH VALUES (1, 1), (2, NULL)");
+    let del = db.exec("DELETE FROM PAR WHERE ID = 1");
     rep.case("column-level references", true);
-    if out.is_ok() {
-        rep.fail(FailKind::Oracle, Some("C12/column-level-references-ignored"), "child row without parent accepted: a column-level REFERENCES clause declares no foreign key", &db.log.join(";\n"));
+    let mut db2 = Db::new();
+    db2.must("CREATE TABLE PAR (ID INT PRIMARY KEY, V INT)");
+    db2.must("CREATE TABLE CH (ID INT PRIMARY KEY, PID INT REFERENCES PAR (ID) ON DELETE CASCADE)");
+    db2.must("INSERT INTO PAR VALUES (1, 0)");
+    db2.must("INSERT INTO CH VALUES (1, 1)");
+    let casc = db2.exec("DELETE FROM PAR WHERE ID = 1");
+    if out.is_ok() || !ok1.is_ok() || del.is_ok() || !casc.is_ok() || !db2.scan("CH").unwrap_or_default().is_empty() {
+        rep.fail(FailKind::Oracle, None, "a column-level REFERENCES clause must declare a foreign key (orphan rejected, NO ACTION default, ON DELETE CASCADE honoured)",
+            &format!("{}\norphan insert {}; valid insert {}; parent delete {}\n{}\ncascade delete {}", db.log.join(";\n"), out.brief(), ok1.brief(), del.brief(), db2.log.join(";\n"), casc.brief()));
     }
 }
 
@@ -520,7 +599,7 @@ fn cycle_probe(rep: &mut Report) {
     match status {
         Some(s) if s.success() && outp.contains("rows ()") => {}
         Some(s) if s.success() => rep.fail(FailKind::Oracle, None, "cyclic CASCADE delete returned but left rows", &format!("{}\n{}", script, outp)),
-        other => rep.fail(FailKind::Oracle, Some("C12/cyclic-cascade-unbounded-recursion"), "DELETE on a cyclic ON DELETE CASCADE reference does not terminate (stack overflow / timeout)", &format!("{}\nexit: {:?}\n{}", script, other, outp)),
+        other => rep.fail(FailKind::Oracle, None, "DELETE on a cyclic ON DELETE CASCADE reference does not terminate (stack overflow / timeout)", &format!("{}\nexit: {:?}\n{}", script, other, outp)),
     }
 }
 
@@ -543,6 +622,10 @@ fn main() {
     for k in 0..args.n(8000, 160000) {
         let mut r = rng.fork();
         run_junction(&mut r, k, None, &mut model, &mut rep);
+    }
+    for k in 0..args.n(6000, 120000) {
+        let mut r = rng.fork();
+        run_selfref(&mut r, k, &mut model, &mut rep);
     }
     rep.assumptions.push("foreign keys reference the parent's PRIMARY KEY, single column, declared at table level".into());
     rep.extra.insert("model_requests".into(), serde_json::json!(model.requests));
